@@ -1750,6 +1750,53 @@ pub fn case_meta(ctx: &mut Ctx, case: &Value) {
     if !(close_tol(wu, u2, tol) && close_tol(wr[0], r2[0], tol) && close_tol(wr[1], r2[1], tol)) {
         ctx.fail_prop(case, format!("evaluation under {}: expected util {:e} regrets {:?}, got util {:e} regrets {:?}", what, wu, wr, u2, r2));
     }
+    // the same through the other import route, and (an inserted single-action decision may be listed
+    // with any valid weight: 1, 0, or another finite non-negative number) with other weights on the
+    // inserted infosets: none of this may change an evaluation (added after seeded change m12r)
+    {
+        let base = fwd_prof(&prof);
+        let mut variants: Vec<(&str, [Named; 2])> = vec![("as listed", base.clone())];
+        if what == "degenerate" {
+            let infos = infosets_of(&t2);
+            for (name, w) in [("weight 0", 0.0f64), ("weight 2.5", 2.5f64)] {
+                let mut v = base.clone();
+                for p in 0..2 {
+                    for (l, acts) in v[p].iter_mut() {
+                        if inserted(p, *l) && infos[p].iter().any(|(m, _)| m == l) {
+                            for a in acts.iter_mut() {
+                                a.1 = w;
+                            }
+                        }
+                    }
+                }
+                variants.push((name, v));
+            }
+        }
+        for (name, v) in variants {
+            for route in ["from_named", "from_named_eq"] {
+                if name == "as listed" && route == "from_named" {
+                    continue;
+                }
+                let imported = catch_unwind(AssertUnwindSafe(|| {
+                    let s = if route == "from_named" { g2.from_named(v.clone()) } else { g2.from_named_eq(v.clone()) };
+                    s.map(|s| {
+                        let i = s.get_info();
+                        (i.player_utility(PlayerNum::One), [i.player_regret(PlayerNum::One), i.player_regret(PlayerNum::Two)])
+                    })
+                }));
+                ctx.stat("c12_import_variants");
+                match imported {
+                    Ok(Ok((u, r))) => {
+                        if !(close_tol(wu, u, tol) && close_tol(wr[0], r[0], tol) && close_tol(wr[1], r[1], tol)) {
+                            ctx.fail_prop(case, format!("evaluation under {} ({}, inserted infosets {}): expected util {:e} regrets {:?}, got util {:e} regrets {:?}", what, route, name, wu, wr, u, r));
+                        }
+                    }
+                    Ok(Err(e)) => ctx.fail_prop(case, format!("under {} the profile ({}, inserted infosets {}) is rejected by {}: {:?}", what, name, name, route, e)),
+                    Err(_) => ctx.fail_prop(case, format!("under {} {} panics (inserted infosets {})", what, route, name)),
+                }
+            }
+        }
+    }
     // deterministic solve
     let o1 = run_lib(&g1, &cfg);
     let o2 = run_lib(&g2, &cfg);
